@@ -19,6 +19,7 @@ import (
 	"fmt"
 	"github.com/echovault/sugardb/internal"
 	"github.com/echovault/sugardb/internal/constants"
+	"math"
 	"math/rand"
 	"slices"
 	"strconv"
@@ -494,6 +495,11 @@ func handleHINCRBY(params internal.HandlerFuncParams) ([]byte, error) {
 		if strings.EqualFold(params.Command[0], "hincrbyfloat") {
 			hash[field] = float64(i) + floatIncrement
 		} else {
+			// The sum must stay within the integer range (it used to wrap around silently).
+			if (intIncrement > 0 && i > math.MaxInt-intIncrement) ||
+				(intIncrement < 0 && i < math.MinInt-intIncrement) {
+				return nil, errors.New("increment or decrement would overflow")
+			}
 			hash[field] = i + intIncrement
 		}
 	case float64:
